@@ -262,6 +262,31 @@ func TestC13(t *testing.T) {
 			counters.Eval(dayCase{j})
 		}
 	}
+	// every term of every year that falls within a minute of midnight (a handful per millennium): the eve, the day and
+	// the days after — where "the term's day" is decided by a second
+	for y := 1; y <= 9998; y++ {
+		if !ev.Mine(y) {
+			continue
+		}
+		for _, x := range gen.Terms(y) {
+			if tod := x.H*3600 + x.Mi*60 + x.S; x.Y == y && (tod <= 60 || tod >= 86340) {
+				for d := -2; d <= 6; d++ {
+					if j := jd(x) + d; j >= ref.JDNMin+1 && j <= ref.JDNMax-1 {
+						counters.Eval(dayCase{j})
+					}
+				}
+			}
+		}
+	}
+	// a dense window asked again in scrambled order (same oracle, different predecessor)
+	{
+		start := ref.JDN(2020, 1, 1) + ev.Shard*250
+		for _, perm := range ev.Shuffled(500, ev.Pick(2, 8), 13) {
+			for _, k := range perm {
+				counters.Eval(dayCase{start + k})
+			}
+		}
+	}
 	counters.Rapid(ev.Share(ev.Pick(16000, 160000)), func(t *rapid.T) dayCase {
 		y := gen.Year(t, 1, 9998)
 		ts := gen.Terms(y)
